@@ -12,6 +12,8 @@ CONSTANTS
   MaxOps = 14
   MaxFaults = 2
   MaxData = 4
+  MaxLate = 1
+  TocAlts = {}
   IdMod = 255
   Bugs = {"mem_raises"}
   WithSync = FALSE
